@@ -288,6 +288,8 @@ def run(ctx: Ctx) -> None:
             for n, v in counts.items():
                 if case.op == "linear_readout" and n == "out":
                     continue
+                if n != "out" and n not in case.shapes:
+                    continue            # a role this call does not have (e.g. the gain of a bias-only layer_norm)
                 if n in mt and mt[n] != v and not (case.op in ("layer_norm", "rms_norm") and abs(float(mt[n]) - float(v)) < 1e-3 * float(v)):
                     ctx.disagree("term_counts", {**key, "role": n}, str(mt[n]), str(v), THMS)
         for (case, key, m), r in zip(scases, driver.ask(sreqs)):
